@@ -23,6 +23,7 @@ use fuel_core_types::{
     fuel_tx::{
         Address,
         TxId,
+        TxPointer,
     },
     fuel_types::BlockHeight,
     services::{
@@ -52,6 +53,10 @@ use std::sync::{
     Mutex,
 };
 use tokio::sync::mpsc;
+use vcommon::{
+    chance,
+    rand::rngs::StdRng,
+};
 use tokio_stream::wrappers::ReceiverStream;
 
 /// The seven status kinds a transaction can be published with.
@@ -96,6 +101,10 @@ impl Kind {
 
 pub fn tx_id(i: usize) -> TxId {
     TxId::from([(i as u8).wrapping_add(1); 32])
+}
+
+fn pointer(serial: u64) -> TxPointer {
+    TxPointer::new(BlockHeight::from((serial % 1000) as u32), (serial % 7) as u16)
 }
 
 fn fee(serial: u64) -> u64 {
@@ -146,14 +155,14 @@ pub fn make_squeezed(serial: u64, tx: TxId) -> statuses::SqueezedOut {
 pub fn make_preconf(kind: Kind, serial: u64, tx: TxId) -> Preconfirmation {
     let status = match kind {
         Kind::PreSuccess => PreconfirmationStatus::Success {
-            tx_pointer: Default::default(),
+            tx_pointer: pointer(serial),
             total_gas: serial,
             total_fee: fee(serial),
             receipts: Arc::new(vec![]),
             outputs: vec![],
         },
         Kind::PreFailure => PreconfirmationStatus::Failure {
-            tx_pointer: Default::default(),
+            tx_pointer: pointer(serial),
             total_gas: serial,
             total_fee: fee(serial),
             receipts: Arc::new(vec![]),
@@ -165,6 +174,35 @@ pub fn make_preconf(kind: Kind, serial: u64, tx: TxId) -> Preconfirmation {
         )),
     };
     Preconfirmation { tx_id: tx, status }
+}
+
+/// A status value as the harness can (re)produce it: `preconf_family` values have the
+/// content that the preconfirmation route produces, the others the content of
+/// `make_status`; re-publishing the same `Val` for the same tx yields an identical
+/// `TransactionStatus` whatever route is used.
+#[derive(Clone, Debug)]
+pub struct Val {
+    pub kind: Kind,
+    pub serial: u64,
+    pub preconf_family: bool,
+}
+
+pub fn value_status(v: &Val, tx: usize) -> TransactionStatus {
+    if v.preconf_family {
+        make_preconf(v.kind, v.serial, tx_id(tx)).status.into()
+    } else {
+        make_status(v.kind, v.serial, tx_id(tx))
+    }
+}
+
+pub fn pick_route(rng: &mut StdRng, v: &Val) -> &'static str {
+    if v.preconf_family {
+        if chance(rng, 60) { "update_preconfirmations" } else { "update_status" }
+    } else if v.kind == Kind::Squeezed && chance(rng, 50) {
+        "update_statuses"
+    } else {
+        "update_status"
+    }
 }
 
 fn parse_reason(reason: &str) -> Option<u64> {
